@@ -97,7 +97,7 @@ def cleanValue (v : Str) : Bool := v.all validValueByte
 def uriInGrammar (f : Format) (u : Str) : Bool :=
   match f with
   | .jsonline | .jsonarr => u.head? == some 47
-  | _ => u.head? == some 47 || (stripPrefix? (str "http://") u).isSome || (stripPrefix? (str "https://") u).isSome
+  | _ => u.head? == some 47 || (stripPrefix? httpPfx u).isSome || (stripPrefix? httpsPfx u).isSome
 
 /-- decoded header lines of one item (uri/uripost lines go through DecodeHeader; the others are taken as given) -/
 def decodedLines (f : Format) (hdrs : List (Str × Str)) : Option (List (Str × Str)) :=
